@@ -40,7 +40,7 @@ SHRINK_LISTS = ("pre", "actors", "wakes", "tapes")
 
 
 def budget(tier):
-    return 12000 if tier == "quick" else 150_000
+    return 12000 if tier == "quick" else 800_000
 
 
 def wall(tier):
